@@ -441,6 +441,52 @@ def job_swap_distance(n):
                           lambda md: dict(p1=[md.get(f"p1_{k}", k) for k in range(n)], p2=[md.get(f"p2_{k}", k) for k in range(n)]), REPLAY_SWAP)
 
 
+REPLAY_REV = '''
+import numpy as np
+from moptipyapps.tsp.instance import Instance
+import moptipyapps.tsp.ea1p1_revn as ea
+import moptipyapps.tsp.fea1p1_revn as fea
+n = W["n"]
+D = np.array([[0 if i == j else 1 + abs(i - j) for j in range(n)] for i in range(n)], dtype=np.int64)
+inst = Instance("t", 0, D)
+x = np.array(W["x"], dtype=np.int64)
+y = int(sum(D[x[k - 1], x[k]] for k in range(n)))
+try:
+    if W["algo"] == "ea":
+        print("VALUE", ea.rev_if_not_worse(W["i"], W["j"], n, inst, x, y))
+    else:
+        h = np.zeros(int(inst.tour_length_upper_bound) + 1, np.int64)
+        print("VALUE", fea.rev_if_h_not_worse(W["i"], W["j"], n, inst, h, x, y))
+except IndexError as ex:
+    print("INDEXERROR", ex)
+'''
+
+
+def job_rev_kernel(algo, n):
+    """the reversal move kernels called directly over their documented domain (first, smaller index i; second, larger index j; the
+    successor of j is read with index wrap, so j may be the last index): 0 <= i < j <= n-1, any permutation"""
+    import moptipyapps.tsp.ea1p1_revn as ea
+    import moptipyapps.tsp.fea1p1_revn as fea
+    from symx.core import INT64
+    f = xform.transform(ea.rev_if_not_worse if algo == "ea" else fea.rev_if_h_not_worse)
+
+    def run(eng):
+        D = fresh_array("d", (n, n), dtype=INT64)
+        x = _perm(eng, "x", n)
+        i, j = fresh_int("i"), fresh_int("j")
+        eng.assume(z3.And(i.e >= 0, i.e < j.e, j.e <= n - 1))
+        y = fresh_int("y")
+        if algo == "ea":
+            f(i, j, n, D, x, y)
+        else:
+            hh = fresh_array("h", (8,), dtype=INT64)
+            eng.assume(z3.And(y.e >= 0, y.e < 4))          # the table is indexed by tour lengths: keep them inside the small table
+            eng.assume(z3.And(*[z3.And(lift(D[a, b]) >= 0, lift(D[a, b]) <= 0) for a in range(n) for b in range(n)]))
+            f(i, j, n, D, hh, x, y)
+    return _explore_index(run, f"{algo} reversal kernel n={n}", f"tsp/{'ea1p1_revn' if algo == 'ea' else 'fea1p1_revn'}.py",
+                          lambda md: dict(algo=algo, n=n, i=md.get("i", 0), j=md.get("j", 1), x=[md.get(f"x_{k}", k) for k in range(n)]), REPLAY_REV)
+
+
 def job_move_kernels(algo, n):
     """index obligations of the reversal kernels inside the real solve loop (C06 harness, index clauses only)"""
     from . import c06
@@ -504,6 +550,7 @@ def jobs(tier):
     for algo in ("ea", "fea"):
         for n in (4, 5) + ((6,) if tier == "thorough" else ()):
             js.append(Job(f"move_kernel/{algo}/n{n}", job_move_kernels, dict(algo=algo, n=n), "index_in_range", 1200))
+            js.append(Job(f"rev_kernel/{algo}/n{n}", job_rev_kernel, dict(algo=algo, n=n), "index_in_range", 900))
     js.append(Job("controllers-systems-j", job_controllers, {}, "index_in_range", 1200))
     from . import c02
     for name in c02.OBJECTIVES:
